@@ -187,7 +187,9 @@ def monStep (cfg : MonCfg) (st : MonState) : CEv → Except Violation MonState
     match lookupSess st.sessions s with
     | none => .error (.unknownSession s)
     | some db =>
-      if db = cfg.mgmtDb ∧ cfg.jobs > 0 then .ok st
+      if db = cfg.mgmtDb ∧ cfg.jobs > 0 then
+        -- parallel mode: the management session carries no file's SQL
+        if (sqlOwner text).isSome then .error (.foreignSql db text) else .ok st
       else
         -- exclusive use: the text was written in the file this database was created for
         let ownerOk := match sqlOwner text, fileOfDb cfg db with
